@@ -157,7 +157,7 @@ def json_paths(v, prefix=()):
     if isinstance(v, dict):
         for k, x in v.items():
             yield from json_paths(x, prefix + (k,))
-    elif isinstance(v, list):
+    elif isinstance(v, (list, tuple)):
         for i, x in enumerate(v):
             yield from json_paths(x, prefix + (i,))
 
@@ -304,7 +304,7 @@ ENTRY_STATES = [
     "absent", "raw_valid", "raw_valid_gpg_shape", "gpg_valid", "gpg_valid_see_also", "other_payload", "misfiled",
     "bitflip", "truncated", "upper_sig", "extra_field", "nondict", "alt_upper", "alt_space", "alt_0x",
     "alt_inner_space", "alt_nonascii_digit", "alt_mixed_case", "gpg_bad_header", "gpg_other_payload", "gpg_bad_see_also",
-    "gpg_empty_header", "zero_sig", "bare_sig_string", "sig_in_list",
+    "gpg_empty_header", "zero_sig", "bare_sig_string", "sig_in_list", "nonascii_value",
 ]
 
 
@@ -352,6 +352,9 @@ def make_entry(rng, state: str, k: Key, data: bytes, gpg: bool, other: Key):
         return k.hex, valid["signature"]
     if state == "sig_in_list":
         return k.hex, [valid]
+    if state == "nonascii_value":       # printable non-ASCII where a diagnostic may echo it: the verdict must not depend on what stdout can encode
+        return k.hex, rng.choice(["s\u00efgnature \u2603", {"signature": "\u00fc" * 128}, {"signature": "\u00e9"}, ["\u2603"], {"signature": valid["signature"][:-1] + "\u00e9"},
+                                  {"other_headers": "\u00e9\u00e9", "signature": valid["signature"]}])
     if state == "nondict":
         return k.hex, rng.choice([valid["signature"], [valid], None, 1, True, 1.5, [valid["signature"]]])
     if state == "alt_upper":
